@@ -115,6 +115,9 @@ type c12Case struct {
 	Lockstep bool       `json:"lockstep"`
 	Mux      bool       `json:"mux"`
 	MaxLen   int64      `json:"maxlen"` // RelayOption.MaxMessageLength (0 = 1 MiB); every client frame is shorter
+	// Opts: 0 = SendTimeout 30 s, ping every minute; 1 = SendTimeout 0 (no write deadline), ping every minute;
+	// 2 = SendTimeout 0 and PingDuration 0 (both switched off); 3 = SendTimeout 30 s, PingDuration 0
+	Opts int `json:"opts"`
 	Frames   []c12Frame `json:"frames"`
 	// observation
 	RanLockstep bool      `json:"ran_lockstep"` // lock-step requested and no wait timed out
@@ -624,6 +627,14 @@ func c12Run(c *c12Case) {
 		RecvRateLimitBurst: 1e9,
 		MaxMessageLength:   c.MaxLen,
 		PingDuration:       time.Minute,
+	}
+	switch c.Opts {
+	case 1:
+		opt.SendTimeout = 0
+	case 2:
+		opt.SendTimeout, opt.PingDuration = 0, 0
+	case 3:
+		opt.PingDuration = 0
 	}
 	relay := mocrelay.NewRelay(rec.handler(), opt)
 	var h http.Handler = relay
@@ -1373,6 +1384,9 @@ func c12FrameOf(b c12Built, outs []c12Out) c12Frame {
 func c12Generate(r *common.Rand, idx int) c12Case {
 	g := &c12Gen{r: r}
 	c := c12Case{Lockstep: r.Chance(60), Mux: r.Bool()}
+	if r.Chance(30) {
+		c.Opts = 1 + r.Intn(3)
+	}
 	n := 3 + r.Intn(12)
 	defectAt, which := -1, 0
 	if r.Chance(9) {
